@@ -89,6 +89,8 @@ type parseSetup struct {
 	exprI   []string // o<id> / r<id>
 	ops     []customOp
 	install bool // install through plugins
+	rebuild int  // number of parsers built (and run) from the same builder before the one that is observed
+	nested  string // a snippet that a statement interceptor parses with a second parser built from the same builder, mid-parse
 }
 
 type parseOutcome struct {
@@ -145,9 +147,21 @@ func runParse(su parseSetup, src string) parseOutcome {
 			return t
 		})
 	}
+	inNested := false
 	addStmt := func(id int) func(*parser.Builder) {
 		return func(b *parser.Builder) {
 			b.UseStatementInterceptor(func(p *parser.Parser, next func() ast.Statement) ast.Statement {
+				if inNested {
+					return next()
+				}
+				if su.nested != "" && id == 0 {
+					// a plugin that parses an embedded snippet with a parser of its own, built from the same builder,
+					// while the outer parser is in the middle of its input
+					inNested = true
+					inner := pb.Build(su.nested)
+					_, _ = inner.ParseProgram()
+					inNested = false
+				}
 				out.trace = append(out.trace, eventStr("S", id, p))
 				return next()
 			})
@@ -158,6 +172,9 @@ func runParse(su parseSetup, src string) parseOutcome {
 		re := spec[0] == 'r'
 		return func(b *parser.Builder) {
 			b.UseExpressionInterceptor(func(p *parser.Parser, next func() ast.Expression) ast.Expression {
+				if inNested {
+					return next()
+				}
 				out.trace = append(out.trace, eventStr("E", id, p))
 				if re {
 					left := p.ParsePrefixExpression()
@@ -186,6 +203,11 @@ func runParse(su parseSetup, src string) parseOutcome {
 	}
 	if strings.Contains(su.flags, "s") {
 		pb.WithSmartSemicolon(true)
+	}
+	for k := 0; k < su.rebuild; k++ { // one builder builds many independent parsers
+		q := pb.Build(src)
+		_, _ = q.ParseProgram()
+		out.trace, out.tokTrace = nil, nil
 	}
 	p := pb.Build(src)
 	out.prog, out.err = p.ParseProgram()
